@@ -187,6 +187,11 @@ def _contract(bid, dbl, enc, vn, decl, stats=None):
     ok = (back.level == bid // 5 + 1 and back.trump is be.SUIT[bid % 5] and back.vul is be.VUL[vn]
           and back.declarer is be.SEAT[decl] and be.dbl_status(back) == dbl and not back.is_passed_out())
     check(ok, 'contract text does not parse back to the same contract', case, {'got': repr(back)})
+    if decl == 0:
+        # the declarer is an optional argument of the parser
+        nd = guard('str_to_contract raises without a declarer', case, Contract.str_to_contract, fresh(text), be.VUL[vn])
+        check(nd.level == bid // 5 + 1 and nd.trump is be.SUIT[bid % 5] and nd.vul is be.VUL[vn] and nd.declarer is None and be.dbl_status(nd) == dbl,
+              'contract text parsed without a declarer is not the same contract', case, {'got': repr(nd)})
     check(c.level == bid // 5 + 1 and c.trump is be.SUIT[bid % 5] and c.necessary_tricks() == bid // 5 + 7,
           'contract level/trump/necessary tricks', case)
     if stats is not None:
